@@ -11,10 +11,10 @@ def prof(seed):
     k = seed % 3
     base = dict(p_watch=0.6, p_watch_link=0.35, p_always=0.4, p_stamp=0.15, p_flag=0.05, p_dyn=0.1, p_opt=0.0, p_multi=0.4)
     if k == 0:
-        return gen.profile(ops=dict(watch=8, build=8, repeat=4, edit_r=2, edit_i=1, rm=1), **base)
+        return gen.profile(ops=dict(watch=8, build=8, repeat=4, edit_r=2, edit_i=1, rm=1, m_watchduring=3), **base)
     if k == 1:
-        return gen.profile(jmax=8, ntgt=(4, 10), ops=dict(watch=6, build=8, repeat=4, edit_r=2, force=1), **base)
-    return gen.profile(ntgt=(5, 12), steps=(8, 22), ops=dict(watch=6, build=8, repeat=3, doedit=1, m_stamp=1), **base)
+        return gen.profile(jmax=8, ntgt=(4, 10), ops=dict(watch=6, build=8, repeat=4, edit_r=2, force=1, m_watchduring=2), **base)
+    return gen.profile(ntgt=(5, 12), steps=(8, 22), ops=dict(watch=6, build=8, repeat=3, doedit=1, m_stamp=1, m_watchduring=2), **base)
 
 
 def relevant(a):
@@ -53,7 +53,7 @@ def nontrivial(r):
 CASE = histcheck.HistCase(PROP, prof, {'overbuild', 'underbuild', 'multi', 'exit', 'ifcreate-existing', 'stale'}, nontrivial, hook=hook, keyfilter=relevant)
 
 RULE = ('graphs mixing redo-ifcreate watchers (standard idiom: ifchange if the path exists, else ifcreate), redo-always nodes with 1-6 '
-        'dependents and ordinary declarations at depth 0-3; histories create / delete / edit the watched paths across runs with '
+        'dependents and ordinary declarations at depth 0-3; histories create / delete / edit the watched paths across runs (and let a watched path appear while the script that declared it is still running, after its redo-ifcreate) with '
         'unrelated edits in between, -j1..8. Oracle: executed multiset per command vs reference model (watcher runs at the first '
         'redo-ifchange after the path exists and not before; always-target exactly once per top-level run that needs it); '
         'plus: redo-ifcreate on an existing path must fail, on an absent path must succeed. Non-trivial: a rebuild caused by a '
